@@ -319,11 +319,11 @@ def scenario(ctx):
                             '%s of %s lists interfaces %r, object has %r' % (member, path, names, want))
 
     def op_query():
-        kind = ds.weighted([3, 3, 2, 0.5])
+        kind = ds.weighted([3, 3, 2, 0.5, 0.7])
         p = QUERY_PATHS[ds.choose(len(QUERY_PATHS))]
         if kind == 3 and E:
             p = sorted(E)[ds.choose(len(E))]
-        q = {'kind': ('introspect', 'gmo', 'call', 'close')[kind], 'path': p, 'epoch': epoch[0]}
+        q = {'kind': ('introspect', 'gmo', 'call', 'close', 'peer-other')[kind], 'path': p, 'epoch': epoch[0]}
         if kind == 0:
             m = daemon.call(p, 'Introspect', 'org.freedesktop.DBus.Introspectable', sender=':1.60',
                             dest=rig.bus_name)
@@ -332,6 +332,9 @@ def scenario(ctx):
                             sender=':1.60', dest=rig.bus_name)
         elif kind == 3:
             m = daemon.call(p, 'Close', None, sender=':1.60', dest=rig.bus_name)
+        elif kind == 4:
+            # a member the Peer interface does not have: whether the path is exported decides
+            m = daemon.call(p, 'Frobnicate', 'org.freedesktop.DBus.Peer', sender=':1.60', dest=rig.bus_name)
         else:
             # ordinary call: the probe method of whatever class is there (interface omitted)
             m = daemon.call(p, 'Probe', None, sender=':1.60', dest=rig.bus_name)
@@ -363,6 +366,8 @@ def scenario(ctx):
         p = q['path']
         if q['kind'] in ('call', 'close'):
             return ('ok',) if p in E else ('unknown-object',)
+        if q['kind'] == 'peer-other':
+            return ('unknown-method',) if p in E else ('unknown-object',)
         if q['kind'] == 'introspect':
             ch = children(E, p)
             if p not in E and not ch:
@@ -457,6 +462,12 @@ def scenario(ctx):
                 raise Violation('C16/unknown-object', q['kind'],
                                 '%s on %s (exported: %r) answered %r, expected UnknownObject'
                                 % (q['kind'], p, Eset, r.describe()))
+            return
+        if exp[0] == 'unknown-method':
+            if r.mtype != rc.ERROR or r.fields.get(rc.F_ERROR_NAME) != 'org.freedesktop.DBus.Error.UnknownMethod':
+                raise Violation('C16/call-exported', 'peer member',
+                                'Peer.Frobnicate on exported %s answered %r, expected UnknownMethod'
+                                % (p, r.describe()))
             return
         if exp[0] == 'ok':
             if r.mtype != rc.METHOD_RETURN:
